@@ -31,6 +31,9 @@ struct ExpressionTarget {
     /// ID of in-focus frame at the time when watchpoint was created.
     /// Whether `None` when underlying expression has a global or undefined scope.
     frame_id: Option<FrameID>,
+    /// Canonical frame address of that frame: the same function may be active several times
+    /// (recursion, other threads), the variable lives in this activation only.
+    frame_cfa: Option<RelocatedAddress>,
     /// ID of in-focus thread at the time when watchpoint was created.
     tid: Pid,
     /// Contains breakpoint number if watchpoint DQE is scoped (have a limited lifetime).
@@ -286,6 +289,7 @@ impl Watchpoint {
 
         let mut end_of_scope_brkpt = None;
         let mut frame_id = None;
+        let mut frame_cfa = None;
         if let Some(scope) = address_dqe_result.scope() {
             // take a current frame id
             let ecx = debugger.ecx();
@@ -298,6 +302,7 @@ impl Watchpoint {
 
             let pc = ecx.location().pc;
             let dwarf = debugger.debugee.debug_info(pc)?;
+            frame_cfa = weak_error!(dwarf.get_cfa(&debugger.debugee, ecx));
 
             // from all expression ranges take end-address with maximum line number -
             // this will be an address of a companion breakpoint
@@ -383,6 +388,7 @@ impl Watchpoint {
             dqe,
             last_value: None,
             frame_id,
+            frame_cfa,
             tid: debugger.ecx().pid_on_focus(),
             companion: end_of_scope_brkpt,
         };
@@ -822,6 +828,31 @@ impl Debugger {
         self.watchpoints.all().iter().map(|wp| wp.into()).collect()
     }
 
+    /// From watchpoints attached to an end-of-scope breakpoint select those whose variable
+    /// really goes out of scope: the breakpoint is an address, it is also reached by other
+    /// activations of the same function (recursion) and by other threads.
+    pub(super) fn scope_ended_watchpoints(&self, tid: Pid, wps: &[u32]) -> Vec<u32> {
+        let location = self.ecx().location();
+        let current_cfa = weak_error!(self.debugee.debug_info(location.pc)).and_then(|dwarf| {
+            weak_error!(dwarf.get_cfa(&self.debugee, &ExplorationContext::new(location, 0)))
+        });
+        wps.iter()
+            .copied()
+            .filter(|&num| {
+                let Some(Subject::Expression(target)) =
+                    self.watchpoints.get(num).map(|wp| &wp.subject)
+                else {
+                    return true;
+                };
+                match (target.frame_cfa, current_cfa) {
+                    (Some(wp_cfa), Some(cfa)) => target.tid == tid && wp_cfa == cfa,
+                    // the activation is unknown: behave as before
+                    _ => true,
+                }
+            })
+            .collect()
+    }
+
     pub(super) fn execute_on_watchpoint_hook(
         &mut self,
         tid: Pid,
@@ -855,10 +886,29 @@ impl Debugger {
                                 }
                                 Some(frame_id) => {
                                     let bt = self.backtrace(current_tid)?;
+                                    // the activation that owns the variable, when known:
+                                    // the function may be on the stack more than once
+                                    let cfa_matches = |num: usize, frame: &crate::debugger::unwind::FrameSpan| {
+                                        let Some(wp_cfa) = target.frame_cfa else {
+                                            return true;
+                                        };
+                                        let cfa = frame.ip.into_global(&self.debugee).ok().and_then(
+                                            |global_pc| {
+                                                let loc =
+                                                    Location::new(frame.ip, global_pc, current_tid);
+                                                let ecx = ExplorationContext::new(loc, num as u32);
+                                                let dwarf = self.debugee.debug_info(frame.ip).ok()?;
+                                                dwarf.get_cfa(&self.debugee, &ecx).ok()
+                                            },
+                                        );
+                                        cfa == Some(wp_cfa)
+                                    };
                                     let (num, frame) = bt
                                         .iter()
                                         .enumerate()
-                                        .find(|(_, frame)| frame.id() == Some(frame_id))
+                                        .find(|(num, frame)| {
+                                            frame.id() == Some(frame_id) && cfa_matches(*num, frame)
+                                        })
                                         .ok_or(Error::VarFrameNotFound)?;
 
                                     let loc = Location::new(
@@ -940,6 +990,7 @@ impl Debugger {
                 }
             }
             WatchpointHitType::EndOfScope(wps) => {
+                let wps = &self.scope_ended_watchpoints(tid, wps);
                 let watchpoints = wps
                     .iter()
                     .filter_map(|&num| self.watchpoints.get(num))
